@@ -544,6 +544,44 @@ def _run_supported(case):
                 viol.append(Violation(comp, "codes_not_mapped_to_classes",
                                       etrig, f"inverse(arange(K))={ic} "
                                       f"classes_={got_cls}"))
+    # ---- encoder fitted on OTHER data (the labeled part only), then used
+    # for y: classes and codes are the same, so the round trip must hold too
+    if 0 < n_missing < size and not viol:
+        lab_case = dict(case, values=[v for v, m in zip(vals, ref) if not m],
+                        shape=[size - n_missing])
+
+        def enc_other():
+            le = ExtLabelEncoder(classes=build_classes(case),
+                                 missing_label=ml_value(ml))
+            le.fit(build_y(lab_case))
+            t = le.transform(build_y(case))
+            return t, le.inverse_transform(t)
+
+        ok, r = guarded(enc_other)
+        otrig = etrig + "/fit_on_labeled_part"
+        if not ok:
+            viol.append(exc_violation(comp, r, otrig,
+                                      "fit(labeled part)/transform/inverse"))
+        else:
+            t, inv = r
+            labels.append("encoder_fitted_on_labeled_part")
+            if (not isinstance(t, np.ndarray) or t.shape != shape
+                    or t.ravel().tolist() != want_enc):
+                viol.append(Violation(
+                    comp, "transform:wrong_code", otrig,
+                    f"got {np.asarray(t).ravel().tolist()} want {want_enc}"))
+            elif not isinstance(inv, np.ndarray) or inv.shape != shape:
+                viol.append(Violation(
+                    comp, "inverse_transform:bad_shape", otrig,
+                    f"{getattr(inv, 'shape', None)} want {shape}"))
+            else:
+                got = inv.ravel().tolist()
+                bad = [i for i, (a, b) in enumerate(zip(got, vals))
+                       if not (same(a, b) or eq(a, b))]
+                if bad:
+                    viol.append(Violation(
+                        comp, "round_trip_mismatch", otrig,
+                        f"positions {bad[:5]}: got {got} want {vals}"))
     nontrivial = (0 < n_missing < size
                   and not (case["kind"] == "float" and ml["t"] == "nan"))
     if nontrivial:
